@@ -17,7 +17,7 @@ for f in json.load(open(sys.argv[1]))["findings"]:
     if f.get("status")=="fixed" and f.get("commit") and not f.get("no_revert"):
         print("fix-%s commit:%s -R" % (f["commit"], f["commit"]))
 PY
-} | sort -u | xargs -P "$J" -L 1 bash -c 'one "$0" "$1" "$2"'
+} | sort -u | grep -E "${ONLY:-.}" | xargs -P "$J" -L 1 bash -c 'one "$0" "$1" "$2"'
 python3 - "$OUT" "$HERE/selftest/sweep_result.json" <<'PY'
 import sys,os,re,json
 out,res=sys.argv[1],sys.argv[2]
@@ -27,7 +27,11 @@ for f in sorted(os.listdir(out)):
     keys=sorted(set(re.findall(r'rule (\S+) \[([^\]]+)\]',t)))
     r[f[:-4]]={"violations":[k[1] for k in keys],"properties":sorted(set(re.findall(r'^VIOLATION property=(\S+)',t,re.M))),
                "errors":re.findall(r'^(?:CHECKER-ERROR|PATCH-DOES-NOT\S+).*',t,re.M)[:5]}
-json.dump(r,open(res,'w'),indent=1)
+if os.environ.get("ONLY"):
+    old=json.load(open(res)) if os.path.exists(res) else {}
+    old.update(r); json.dump(old,open(res,'w'),indent=1)
+else:
+    json.dump(r,open(res,'w'),indent=1)
 det=sum(1 for v in r.values() if v["violations"])
 print("changes:",len(r),"detected:",det)
 for k,v in r.items():
